@@ -55,6 +55,7 @@ def run(unit, repo=REPO, tag=None):
     import prop_parser
     try:
         ex, text, linemap, info, path = build(unit, repo, os.path.join(scratch(), tag or unit))
+        fns, loops = weave.parse_spec(open(os.path.join(VERIF, UNITS[unit]['spec'])).read())
         res = verus(path, multiple_errors=10, threads=4)
     except (AnchorLost, weave.SpecError, Undecided, OSError) as e:
         return {'unit': unit, 'status': 'undecided', 'why': str(e)[:800]}
@@ -64,6 +65,18 @@ def run(unit, repo=REPO, tag=None):
         fn = loc[0] if loc else None
         fails.append({'fn': fn, 'id': obligation_id(unit, fn, f), 'rendered': f['rendered'],
                       'where': ('%s:%d (%s)' % (loc[1], loc[2], fn)) if loc else '%s (hand-written specification)' % UNITS[unit]['prelude']})
+    # a failure in a function that contains a closure without a contract is "needs contract", not a violation:
+    # Verus knows nothing about what such a closure returns
+    nclos = {}
+    for it in ex['items']:
+        if it.kind == 'fn':
+            total = len(weave.find_closures(it.body))
+            have = sum(1 for k in getattr(loops, 'closures', {}) if k[0] == it.name)
+            if total > have:
+                nclos[it.name] = total - have
+    if fails and all(f['fn'] in nclos for f in fails):
+        return {'unit': unit, 'status': 'undecided',
+                'why': 'obligations failed only in functions that contain closures without a contract (needs contract, not a bug): %s' % sorted(set(f['fn'] for f in fails))}
     reach = None
     if not fails:
         rp = os.path.join(os.path.dirname(path), '%s_reach.rs' % unit)
